@@ -169,7 +169,7 @@ inductive Op where
   | cp (p k : Nat) | cs (k : Nat) | cr (p t q : Nat) | cm (t k : Nat)
   | cr8 (s : Nat) | de (s : Nat) | st (s : Nat)
   | fi (t : Nat) | me (t : Nat) | rmi | sp (v : Rat) | bl | wk (t : Nat)
-  | aq (l : Nat) | rl (l : Nat) | it
+  | aq (l : Nat) | rl (l : Nat) | it | itk (k : Nat)
 deriving Repr, Inhabited
 
 /-- what a `Handle` in the ready queue is -/
@@ -462,6 +462,13 @@ def doOp (me : Nat) (op : Op) : M Q (String × Bool) := do
       setTask me fun ts => { ts with hold := ts.hold.erase l, owned := ts.owned.erase l }
       wakeFirst O l
       pure ("ok", false)
+  | .itk k => do
+    -- it = iter(get_ready_queue()); k × next(it); await asyncio.sleep(0); it.close(): the iterator works on a
+    -- snapshot (the priority queue sorts its array in place first), so keeping it open withholds nothing
+    let r := O.items w.q
+    set { w with q := r.2 }
+    sleep0 O me
+    pure ("[" ++ ",".intercalate ((r.1.take k).map (lab w)) ++ "]", true)
   | .it => do
     let r := O.items w.q
     set { w with q := r.2 }
